@@ -349,12 +349,32 @@ def annotate_file(src, fspec, relfile):
                         raise ValueError("bad @at argument: " + arg)
                 elif b.kind == "closure":
                     optional = b.arg.strip().endswith("optional")
-                    n = int(b.arg.split()[0])
-                    if n > len(f.closures) and optional:
-                        continue
-                    if n > len(f.closures):
-                        raise AnchorLost("%s: `%s` has %d closures, contract refers to closure %d" % (relfile, fs.path, len(f.closures), n))
-                    cl = f.closures[n - 1]
+                    sel_ = b.arg.split()[0]
+                    if sel_.startswith("/"):
+                        # `@closure /re/ [as N]`: the closure whose text matches (independent of the order of the closures)
+                        m_sel = re.match(r"^/(.*)/(?:\s+as\s+(\d+))?(?:\s+optional)?$", b.arg.strip())
+                        rx_ = re.compile(m_sel.group(1))
+                        hits = [i for i, c_ in enumerate(f.closures) if rx_.search(src[toks[c_.bar1].start:toks[c_.body_end].end])]
+                        if not hits and optional:
+                            continue
+                        if len(hits) != 1:
+                            raise AnchorLost("%s: `%s`: closure /%s/ matched %d closures" % (relfile, fs.path, rx_.pattern, len(hits)))
+                        cl = f.closures[hits[0]]
+                        n = int(m_sel.group(2)) if m_sel.group(2) else hits[0] + 1
+                    else:
+                        n = int(sel_)
+                        if n > len(f.closures) and optional:
+                            continue
+                        if n > len(f.closures):
+                            raise AnchorLost("%s: `%s` has %d closures, contract refers to closure %d" % (relfile, fs.path, len(f.closures), n))
+                        cl = f.closures[n - 1]
+                    # a renamed closure parameter: the typed header takes the name the body uses
+                    ptoks = [toks[i_] for i_ in range(cl.bar1 + 1, cl.bar2)]
+                    if len(ptoks) == 1 and re.match(r"^[A-Za-z_]\w*$", src[ptoks[0].start:ptoks[0].end]):
+                        actual = src[ptoks[0].start:ptoks[0].end]
+                        m_h = re.search(r"\|\s*([A-Za-z_]\w*)\s*:", "\n".join(lines))
+                        if m_h and m_h.group(1) != actual:
+                            lines = [re.sub(r"\b%s\b" % re.escape(m_h.group(1)), actual, l_) for l_ in lines]
                     marked, ids = _mark_clauses(lines, "%s::closure%d" % (base, n))
                     for i in ids:
                         obligations.append({"id": i, "fn": base, "props": fs.props})
